@@ -849,6 +849,12 @@ func Unzip(dir string, m module.Version, zipFile string) (err error) {
 		}
 	}()
 
+	// Name the directory the same way for every step below: files are
+	// created at filepath.Join(dir, name), which cleans the path lexically,
+	// and for a path like x/../d that need not be the directory that the
+	// operating system finds when it is asked about dir itself.
+	dir = filepath.Clean(dir)
+
 	// Check that the directory is empty. Don't create it yet in case there's
 	// an error reading the zip.
 	files, err := os.ReadDir(dir)
